@@ -74,7 +74,10 @@ fn find_in_items<'a>(items: &'a [Item], kind: &str, owner: &str, name: &str) -> 
                     continue;
                 }
                 if let Some(w) = &want_tr {
-                    if tr.as_deref() != Some(w.as_str()) {
+                    // `Trait` matches by name; `Trait<Args>` additionally by the argument text (whitespace-insensitive)
+                    let full = im.trait_.as_ref().map(|(_, p, _)| p.segments.last().unwrap().to_token_stream().to_string().split_whitespace().collect::<String>());
+                    let ok = if w.contains('<') { full.as_deref() == Some(w.as_str()) } else { tr.as_deref() == Some(w.as_str()) };
+                    if !ok {
                         continue;
                     }
                 }
@@ -351,7 +354,12 @@ impl<'a> Rw<'a> {
         if self.qnames.is_empty() { return ""; }
         let mut v = vec![];
         for e in es { Self::leaf_names(e, &mut v); }
-        if v.iter().any(|n| self.qnames.contains(n)) { self.qprefix } else { "" }
+        // an entry `name:prefix` selects its own helper family; a bare `name` the default one (option qname=, "q")
+        for q in &self.qnames {
+            let (name, pre) = match q.split_once(':') { Some((a, b)) => (a, Some(b)), None => (q.as_str(), None) };
+            if v.iter().any(|n| n == name) { return pre.unwrap_or(self.qprefix); }
+        }
+        ""
     }
     fn macro_name(mac: &syn::Macro) -> String {
         mac.path.segments.last().map(|s| s.ident.to_string()).unwrap_or_default()
@@ -721,6 +729,27 @@ impl<'a, 'b, 'ast> Visit<'ast> for Collector<'a, 'b> {
                     self.edits.push((sp.start, sp.end, text));
                 } else {
                     visit::visit_expr(self, e);
+                }
+            }
+            Expr::MethodCall(c) if rw.for_iter && c.method == "all" && c.args.len() == 1 && matches!(&c.args[0], Expr::Closure(cl) if cl.inputs.len() == 1) => {
+                // R19 (option for_iter=1): `E.all(|P| B)` -> the short-circuiting loop Iterator::all performs,
+                //   `{ let mut it = E.into_iter(); let mut all = true; loop { match it.next() { Some(P) => { if !(B) { all = false; break; } } None => { break; } } } all }`
+                if let Expr::Closure(cl) = &c.args[0] {
+                    let idx = rw.loop_idx.get();
+                    rw.loop_idx.set(idx + 1);
+                    let a = e.span().byte_range().start;
+                    let b = cl.body.span().byte_range().start;
+                    rw.loop_headers.borrow_mut().push(rw.src[a..b].split_whitespace().collect::<Vec<_>>().join(" "));
+                    let it = rw.render_expr(&c.receiver);
+                    let pat = &rw.src[cl.inputs[0].span().byte_range()];
+                    let body = rw.render_expr(&cl.body);
+                    let inv = rw.section(&format!("loop {idx}")).map(|t| mark(t)).unwrap_or_default();
+                    let begin = rw.section(&format!("loop {idx} begin")).map(|t| format!("proof {{ //@p\n{}\n}} //@p\n", mark(t))).unwrap_or_default();
+                    let after = rw.section(&format!("loop {idx} after")).map(|t| format!("proof {{ //@p\n{}\n}} //@p\n", mark(t))).unwrap_or_default();
+                    let text = format!("{{ let mut __it{idx} = ({it}).into_iter(); let mut __all{idx} = true;\nloop\n{inv}\n{{ match __it{idx}.next() {{ Some({pat}) => {{\n{begin} if !({body}) {{ __all{idx} = false; break; }} }} None => {{ break; }} }} }}\n{after} __all{idx} }}");
+                    rw.count("R19");
+                    let sp = e.span().byte_range();
+                    self.edits.push((sp.start, sp.end, text));
                 }
             }
             Expr::MethodCall(c) if c.method == "extend" && c.args.len() == 1 && matches!(c.args.first(), Some(Expr::Range(_))) => {
@@ -1204,6 +1233,27 @@ fn load_lines(verif: &Path, rel: &str, variant: &str, depth: usize) -> Result<Ve
             out.extend(load_lines(verif, inc.trim(), variant, depth + 1)?);
             continue;
         }
+        if let Some(rest) = t.strip_prefix("//@contract-of ") {
+            // `//@contract-of <overlay> <fn>[,<fn>...] [variant=V]`: the callee side of modular verification — copy the
+            // signature + requires/ensures of each named function verbatim from the overlay in which it is PROVED
+            // (text from `pub fn NAME` up to its `//@body` line) and give it an assumed body here.
+            let mut it = rest.split_whitespace();
+            let other = it.next().unwrap_or("");
+            let names: Vec<&str> = it.next().unwrap_or("").split(',').collect();
+            let var = it.next().and_then(|x| x.strip_prefix("variant=")).unwrap_or("A");
+            let ol = load_lines(verif, other, var, depth + 1)?;
+            for name in names {
+                let start = ol.iter().position(|l| { let u = l.trim(); u.starts_with(&format!("pub fn {name}(")) || u.starts_with(&format!("pub fn {name}<")) });
+                let Some(a) = start else { return fail("anchor-lost", format!("contract-of {other}: no `pub fn {name}`")); };
+                let Some(len) = ol[a..].iter().position(|l| l.trim().starts_with("//@body ")) else { return fail("anchor-lost", format!("contract-of {other}: `{name}` has no //@body")); };
+                if ol[a + 1..a + len].iter().any(|l| l.trim().starts_with("pub fn ")) { return fail("anchor-lost", format!("contract-of {other}: `{name}` is not a spliced function")); }
+                out.push(format!("// @contract-of {other} {name} (proved there, assumed here)"));
+                out.push("#[verifier::external_body]".to_string());
+                out.extend(ol[a..a + len].iter().cloned());
+                out.push("{ unimplemented!() }".to_string());
+            }
+            continue;
+        }
         out.push(line.to_string());
     }
     Ok(out)
@@ -1251,6 +1301,30 @@ fn run() -> Result<i32, Fail> {
         let t = line.trim();
         if let Some(s) = t.strip_prefix("//@source ") {
             source = s.trim().to_string();
+            k += 1;
+            continue;
+        }
+        if let Some(rest) = t.strip_prefix("//@expect-in ") {
+            // `//@expect-in <relpath> <text>`: as //@expect, for another source file
+            let (file, lit) = rest.trim().split_once(' ').unwrap_or((rest.trim(), ""));
+            let norm = |x: &str| x.split_whitespace().collect::<Vec<_>>().join(" ");
+            let text = std::fs::read_to_string(repo.join(file)).map_err(|e| Fail { kind: "anchor-lost", msg: format!("{file}: {e}") })?;
+            if !norm(&text).contains(&norm(lit)) {
+                return fail("anchor-lost", format!("{unit}:{}: {file} no longer contains `{}`", k + 1, lit.trim()));
+            }
+            gen.push(format!("// @expect {} : {}", file, lit.trim()));
+            k += 1;
+            continue;
+        }
+        if let Some(lit) = t.strip_prefix("//@expect ") {
+            // `//@expect <text>`: the current source file must contain this text (whitespace-insensitive); used to pin
+            // proc-macro input (delegate!, auto_ops) whose expansion the overlay states by hand
+            let norm = |x: &str| x.split_whitespace().collect::<Vec<_>>().join(" ");
+            let text = std::fs::read_to_string(repo.join(&source)).map_err(|e| Fail { kind: "anchor-lost", msg: format!("{source}: {e}") })?;
+            if !norm(&text).contains(&norm(lit)) {
+                return fail("anchor-lost", format!("{unit}:{}: {source} no longer contains `{}`", k + 1, lit.trim()));
+            }
+            gen.push(format!("// @expect {} : {}", source, lit.trim()));
             k += 1;
             continue;
         }
